@@ -402,6 +402,41 @@ pub fn run(cases_path: &str, out_path: &str, tier: &str, seed: u64) {
             sink.put(rec("c05.api_header", json!({"n": n, "old_format": old_fmt}), r.is_ok(), "api_header", json!({"outcome": r.class(), "detail": r.detail()})));
         }
     }
+    // ---- packets accepted from a non-minimal framing (wider length octets, old format, partial chunks): what the library then writes for
+    //      them has the length it announces, is one legally framed packet and parses back to the same value
+    {
+        let lit = |n: usize| -> Vec<u8> { let mut b = vec![b'b', 0, 0, 0, 0, 0]; b.extend((0..n).map(|i| (i * 31 + 7) as u8)); b };
+        let mut inputs: Vec<(String, Vec<u8>)> = Vec::new();
+        for wide in [false, true] {
+            for new_fmt in [false, true] {
+                inputs.push((format!("userid new_fmt={new_fmt} wide={wide}"), frame(new_fmt, 13, &[Chunk::Fixed(5)], b"alice", 5, wide)));
+                inputs.push((format!("literal new_fmt={new_fmt} wide={wide}"), frame(new_fmt, 11, &[Chunk::Fixed(300)], &lit(294), 300, wide)));
+            }
+        }
+        for (first, last) in [(512usize, 0usize), (512, 1), (512, 600), (1024, 0), (8192, 191), (8192, 192)] {
+            inputs.push((format!("literal partial {first} + fixed {last}"), frame(true, 11, &[Chunk::Partial(first), Chunk::Fixed(last)], &lit(first + last - 6), first + last, false)));
+        }
+        inputs.push(("literal partial 512 + partial 512 + fixed 0".into(), frame(true, 11, &[Chunk::Partial(512), Chunk::Partial(512), Chunk::Fixed(0)], &lit(1018), 1024, false)));
+        inputs.push(("literal indeterminate".into(), frame(false, 11, &[Chunk::Indet(40)], &lit(34), 40, false)));
+        for (name, bytes) in inputs {
+            let r = guard(|| -> Result<(), String> {
+                let Some(Ok(p)) = PacketParser::new(&bytes[..]).next() else { return Err("a legally framed packet is not accepted".into()) };
+                let w = p.to_bytes().map_err(|e| e.to_string())?;
+                if p.write_len() != w.len() { return Err(format!("write_len() announces {} but {} octets are written", p.write_len(), w.len())); }
+                let ps = deframe_stream(&w).map_err(|x| format!("what is written does not deframe: {x}"))?;
+                if ps.len() != 1 { return Err(format!("what is written is {} packets", ps.len())); }
+                legal(&ps[0]).map_err(|x| format!("what is written is framed illegally: {x}"))?;
+                let mut pp = PacketParser::new(&w[..]);
+                match (pp.next(), pp.next()) {
+                    (Some(Ok(p2)), None) if p2 == p => Ok(()),
+                    // (the stored packet header may legitimately differ once the length is re-encoded: compare what is written)
+                    (Some(Ok(p2)), None) => if p2.to_bytes().map_err(|e| e.to_string())? == w { Ok(()) } else { Err("parse(serialise(x)) differs from x".into()) },
+                    (a, b) => Err(format!("what is written parses as {:?} then {:?}", a.map(|x| x.is_ok()), b.map(|x| x.is_ok()))),
+                }
+            });
+            sink.put(rec("c05.reframed", json!({"input": name}), r.is_ok(), "reframed", json!({"outcome": r.class(), "detail": r.detail()})));
+        }
+    }
     // ---- objects modified through the public API: the announced length stays truthful and the value still round-trips
     {
         use pgp::packet::{Notation, PacketTrait, Subpacket, SubpacketData};
